@@ -123,11 +123,11 @@ impl<'a> Tracer<'a> {
         let side = board.turn();
         match guarded(|| evaluate::game_ending(board, gen, side)) {
             Ok(e) => {
-                self.emit(json!({"ev": "Ending", "res": ending_str(&e)}), board);
+                self.emit(json!({"ev": "Ending", "res": ending_str(&e), "panic": ""}), board);
                 true
             }
             Err(p) => {
-                self.emit(json!({"ev": "Ending", "res": format!("panic: {}", p)}), board);
+                self.emit(json!({"ev": "Ending", "res": "panic", "panic": p}), board);
                 false
             }
         }
@@ -215,8 +215,9 @@ fn walk(tr: &mut Tracer, rng: &mut Rng, gen: &mut MoveGenerator, start: Board, p
     let mut last_own: [Option<ChessMove>; 2] = [None, None];
     for step in 0..plies {
         // undo burst
-        if !h.stack.is_empty() && rng.chance(1, if style == "walk" { 9 } else { 25 }) {
-            let n = if rng.chance(1, 6) { h.stack.len() } else { 1 + rng.below(h.stack.len().min(14)) };
+        if !h.stack.is_empty() && rng.chance(1, if style == "walk" { 9 } else if style == "clock" { 80 } else { 25 }) {
+            // (long clock games must actually get long: short bursts only)
+            let n = if style != "clock" && rng.chance(1, 6) { h.stack.len() } else { 1 + rng.below(h.stack.len().min(14)) };
             for _ in 0..n {
                 let (m, reg) = h.stack.pop().unwrap();
                 if reg && !tr.uncount(&mut h.board) {
@@ -407,7 +408,8 @@ pub fn main(args: &[String]) {
                 let p = &seeds[rng.below(seeds.len())];
                 // clocks start at various values so that thresholds are crossed early in some histories
                 if scenario == "clock" && g % 2 == 1 {
-                    p.setup_clocks(40 + (rng.below(60) as u64), 1 + rng.below(40) as u64)
+                    // counters start at various values so that 99/100 and 254/255/256 are crossed early
+                    p.setup_clocks(40 + (rng.below(60) as u64), [1u64, 60, 200, 240][rng.below(4)] + rng.below(10) as u64)
                 } else {
                     p.setup()
                 }
